@@ -605,6 +605,7 @@ def q_cancel_instant(c):
                   patterns=[st.f('$cancel_vt', t)])
 
 
+c.ensures('graph-unchanged', lambda c: frame_graph(c, c.cur), props=['C04', 'C10'])
 c.ensures('Q-clean', q_clean, props=['C11', 'C05', 'C08', 'C09'])
 c.ensures('result-is-a-bool', q_bool, props=['C04'])
 c.ensures('Q-true', q_true, props=['C02', 'C04', 'C09'])
@@ -612,3 +613,24 @@ c.ensures('Q-false', q_false, props=['C04', 'C08', 'C05'])
 c.ensures('Q-shutdown', q_shutdown, props=['C13'])
 c.ensures('Q-abort-cancel-at-the-deciding-instant', q_cancel_instant, props=['C05', 'C08', 'C09'])
 c.raises('CancelledError', 'Q-clean', q_clean, props=['C11'])
+
+
+# ---------------------------------------------------------------- diagnosis accessors (C04)
+def _flag_accessor(name, fn, kind='bool'):
+    cc = contract('PureScheduler.' + name, F).param('self').returns(kind)
+    cc.for_props('C04', 'C08')
+    cc.pure = lambda c_: V(kind, fn(c_.cur, c_.a.self))
+    cc.ensures('result-is-the-stated-function-of-the-recorded-cause', lambda c_: c_.result == fn(c_.pre, c_.a.self))
+    return cc
+
+
+_flag_accessor('failed_time_out', lambda st, S: st.f('_failed_timeout', S) != FALSE)
+_flag_accessor('failed_critical', lambda st, S: st.f('_failed_critical', S), kind='ref')
+
+STR_FINE = L.str_const('FINE')
+cc = contract('PureScheduler.why', F).param('self').returns('str')
+cc.for_props('C04')
+cc.requires('recorded-flags-are-well-formed', lambda c_: And(
+    Or(c_.pre.f('_failed_critical', c_.a.self) == TRUE, c_.pre.f('_failed_critical', c_.a.self) == FALSE)))
+cc.ensures('FINE-iff-no-cause-recorded', lambda c_: (c_.result == STR_FINE) == And(
+    c_.pre.f('_failed_timeout', c_.a.self) == FALSE, c_.pre.f('_failed_critical', c_.a.self) == FALSE))
